@@ -258,7 +258,10 @@ impl Service {
     ///
     /// 刷新重新纳入本节点管理的实例
     /// 增量http实例增加过期管理
-    pub(crate) fn do_refresh_process_range(&mut self) {
+    /// Returns the synthetic client ids (`<node>_G`) under which the taken-over instances were
+    /// filed: they belong to this node now and have to leave the owner index of the old node.
+    pub(crate) fn do_refresh_process_range(&mut self) -> Vec<(Arc<String>, InstanceShortKey)> {
+        let mut released = vec![];
         let keys: Vec<InstanceShortKey> = self
             .instances
             .values()
@@ -275,12 +278,17 @@ impl Service {
                 // 接管实例: 归本节点负责后才会参与过期检查(is_enable_timeout)
                 let mut instance = old.as_ref().clone();
                 instance.from_cluster = 0;
+                if !instance.client_id.is_empty() {
+                    released.push((instance.client_id.clone(), key.clone()));
+                    instance.client_id = Default::default();
+                }
                 instance.last_modified_millis = now;
                 let last_modified_millis = instance.last_modified_millis as u64;
                 self.instances.insert(key.clone(), Arc::new(instance));
                 self.healthy_timeout_set.add(last_modified_millis, key);
             }
         }
+        released
     }
 
     pub(crate) fn time_check(
